@@ -2,6 +2,7 @@ package render
 
 import (
 	"bytes"
+	"fmt"
 	"io"
 	"os"
 	"strings"
@@ -167,12 +168,22 @@ func (c rendererContext) RenderFile(filename string, b map[string]any) (string, 
 	for k, v := range b {
 		bindings[k] = v
 	}
+	// a template that includes itself (directly or through others) must end in an error, not in a
+	// stack overflow
+	cfg := c.ctx.config
+	cfg.includeDepth++
+	if cfg.includeDepth > maxIncludeDepth {
+		return "", fmt.Errorf("includes are nested more than %d deep", maxIncludeDepth)
+	}
 	buf := new(bytes.Buffer)
-	if err := Render(root, buf, bindings, c.ctx.config); err != nil {
+	if err := Render(root, buf, bindings, cfg); err != nil {
 		return "", err
 	}
 	return buf.String(), nil
 }
+
+// maxIncludeDepth is the deepest nesting of {% include %} that is rendered.
+const maxIncludeDepth = 100
 
 // InnerString renders the children to a string.
 func (c rendererContext) InnerString() (string, error) {
